@@ -669,6 +669,10 @@ impl Pk {
                     .join(";"),
                 content_digest(&self.props, b"", b"")
             ),
+            DISCONNECT => {
+                let ps: Vec<Prop> = self.props.iter().filter(|p| !(p.id == 0x11 && p.v == PV::U32(0))).cloned().collect();
+                content_digest(&ps, b"", b"")
+            }
             _ => content_digest(&self.props, &self.topic, &self.payload),
         };
         json!({
